@@ -297,11 +297,16 @@ def _scalarise_returned_aggregates(fd, records):
             if d.get("rt") in new_recs and "init" in d and d["d"] not in fd.get("_objs", {}):
                 i = strip_val(d["init"])
                 x = nodes[i]
-                if x.get("inlined") and isinstance(x.get("rets"), list) and len(x["rets"]) == 1:
-                    j = strip_val(x["rets"][0])
-                    il = nodes[j]
-                    if il.get("k") == "InitListExpr" and len(il.get("c", [])) == len(new_recs[d["rt"]].get("fields", [])):
-                        cands[d["d"]] = {"cls": d["rt"], "name": d.get("n") or "ret", "agg_init": j, "decl_stmt": n["i"], "rec": new_recs[d["rt"]]}
+                if x.get("inlined") and isinstance(x.get("rets"), list) and len(x["rets"]) >= 1:
+                    ils = [strip_val(r_) for r_ in x["rets"]]
+                    nf = len(new_recs[d["rt"]].get("fields", []))
+                    if all(nodes[j].get("k") == "InitListExpr" and len(nodes[j].get("c", [])) == nf for j in ils):
+                        info = {"cls": d["rt"], "name": d.get("n") or "ret", "decl_stmt": n["i"], "rec": new_recs[d["rt"]]}
+                        if len(ils) == 1:
+                            info["agg_init"] = ils[0]
+                        else:
+                            info["agg_inits"] = list(zip(x["rets"], ils))     # several returns: one assignment per field at each
+                        cands[d["d"]] = info
     if not cands:
         return
     allowed = set()
@@ -315,6 +320,36 @@ def _scalarise_returned_aggregates(fd, records):
             cands.pop(n["d"], None)
     for obj, info in cands.items():
         _scalarise_fields(fd, obj, info)
+        if info.get("agg_inits"):
+            # declare the pseudo locals where the object was declared, and assign them where each return builds its aggregate
+            ds = nodes[info["decl_stmt"]]
+            for fl in info["rec"].get("fields", []):
+                ds["decls"].append({"d": _pseudo(fd, obj, fl["n"]), "n": "%s.%s" % (info["name"], fl["n"]), "t": fl.get("t", "")})
+            for ret_val, il_id in info["agg_inits"]:
+                il = nodes[il_id]
+                rnode = next((m for m in nodes if m.get("k") == "InlinedReturn" and m.get("val") == ret_val), None)
+                if rnode is None:
+                    continue
+                new_ids = []
+                for fl, init in zip(info["rec"].get("fields", []), il.get("c", [])):
+                    if nodes[init].get("k") == "CXXDefaultInitExpr" and nodes[init].get("c"):
+                        init = nodes[init]["c"][0]
+                    pid = _pseudo(fd, obj, fl["n"])
+                    ref = {"i": len(nodes), "k": "DeclRefExpr", "l": rnode.get("l", ""), "t": fl.get("t", ""), "lv": True, "d": pid,
+                           "n": "%s.%s" % (info["name"], fl["n"]), "dk": "Var", "local": True, "c": [], "field_of": obj}
+                    for k_ in ("bits", "sgn"):
+                        if k_ in fl:
+                            ref[k_] = fl[k_]
+                    nodes.append(ref)
+                    asg = {"i": len(nodes), "k": "BinaryOperator", "op": "=", "l": rnode.get("l", ""), "t": fl.get("t", ""), "lv": True,
+                           "c": [ref["i"], init], "synthetic": True}
+                    nodes.append(asg)
+                    new_ids += [asg["i"]]
+                for b in fd["blocks"]:
+                    if rnode["i"] in b["elems"]:
+                        k = b["elems"].index(rnode["i"])
+                        b["elems"][k:k] = new_ids
+                        break
 
 
 _pseudo_next = [1_900_000_000]
